@@ -89,7 +89,7 @@ def main():
         print("INFRASTRUCTURE: model driver failed:", e)
         return 2
     for d in st.disagreements:
-        problems.append(dict(kind="correspondence", **d))
+        problems.append(dict(d, kind="correspondence:" + d.get("kind", "")))
 
     # ---- 3. the property's relation on the real code ------------------------------------
     n_or = R.get("oracle_cases", {}).get(args.tier, 6 if args.tier == "quick" else 40)
@@ -112,7 +112,7 @@ def main():
     st.relation_instances = rel_checked
 
     # ---- 4. known findings --------------------------------------------------------------
-    known_lines, failures, kf_info = findings.process(prop, failures)
+    known_lines, failures, problems, kf_info = findings.process(prop, failures, problems)
     for l in known_lines:
         print(l)
 
